@@ -97,3 +97,69 @@ Proof. unfold num_proto; proto_only. Qed.
 Lemma limits_positive :
   (0 < call_depth_limit /\ 0 < fuzzing_loop_limit /\ 0 < fill_limit /\ 0 < printf_width_limit)%Z.
 Proof. repeat split; reflexivity. Qed.
+
+(* ---------------------------------------------------------------- more tables *)
+From JQ Require Import Num.F64 Sem.Ops Sem.Eval.
+
+(* Lexer.skipWhitespace: the model's whitespace test and comment opener *)
+Lemma ws_chars_ok : forall c,
+  existsb (N.eqb c) ws_chars = (N.eqb c 32 || N.eqb c 13 || N.eqb c 9)%bool.
+Proof. intro c; simpl; destruct (N.eqb c 32), (N.eqb c 13), (N.eqb c 9); reflexivity. Qed.
+Lemma comment_chars_ok : comment_chars = [35%N].
+Proof. reflexivity. Qed.
+
+(* evalString: the escapes of the model are exactly the generated table *)
+Fixpoint lookup_byte (tbl : list (byte * byte)) (c : byte) : option byte :=
+  match tbl with [] => None | (a, b) :: r => if N.eqb a c then Some b else lookup_byte r c end.
+Lemma escape_table_ok : forall c rest,
+  eval_string (92%N :: c :: rest) =
+  match lookup_byte escape_table c, eval_string rest with
+  | Some b, Some r => Some (b :: r)
+  | _, _ => None
+  end.
+Proof.
+  intros c rest. cbn [eval_string lookup_byte escape_table].
+  rewrite (N.eqb_sym 110 c), (N.eqb_sym 92 c), (N.eqb_sym 116 c).
+  destruct (N.eqb c 110), (N.eqb c 92), (N.eqb c 116), (eval_string rest); reflexivity.
+Qed.
+
+(* `is`: every generated type name is recognised by the model for some value, and the model
+   recognises no other name *)
+Definition kind_palette : list value :=
+  [VStr []; VBool true; VNum f_zero; VArr 1%positive 0 0; VObj 1%positive; VRegex []; VUnknown].
+Lemma is_type_names_ok :
+  forallb (fun n => existsb (fun v => is_type_name v n) kind_palette) is_type_names = true
+  /\ length is_type_names = 7%nat.
+Proof. split; reflexivity. Qed.
+Lemma is_type_names_only : forall v n, is_type_name v n = true -> In n is_type_names.
+Proof.
+  intros v n H. unfold is_type_name in H.
+  repeat match type of H with
+         | context [if bytes_eqb n ?lit then _ else _] =>
+           let E := fresh "E" in
+           destruct (bytes_eqb n lit) eqn:E;
+           [apply bytes_eqb_eq in E; subst n; simpl; tauto |]
+         end.
+  discriminate H.
+Qed.
+
+(* nativePrintf: the directive letters the printf model dispatches on *)
+Lemma printf_directives_ok : printf_directives = [37%N; 115%N; 102%N; 118%N].
+Proof. reflexivity. Qed.
+
+(* rewriteCompundAssingment *)
+Fixpoint lookup_tag (tbl : list (tag * tag)) (t : tag) : option tag :=
+  match tbl with [] => None | (a, b) :: r => if tag_eqb a t then Some b else lookup_tag r t end.
+Lemma compound_table_ok : forall t, compound_base t = lookup_tag compound_table t.
+Proof. destruct t; reflexivity. Qed.
+
+(* checkArgCount(v, N) of every native: the arities the model's natives implement
+   (their behaviour on other argument counts is Props/C16_methods.v arity_errors) *)
+Lemma native_arities_ok :
+  native_arities =
+  [ (bs "array.contains", 1%Z); (bs "array.length", (-1)%Z); (bs "array.pop", 0%Z); (bs "array.popfirst", 0%Z);
+    (bs "array.push", 1%Z); (bs "array.sort", (-1)%Z); (bs "json", 1%Z); (bs "num", 1%Z);
+    (bs "number.ceil", (-1)%Z); (bs "number.floor", (-1)%Z); (bs "number.round", (-1)%Z); (bs "object.length", (-1)%Z);
+    (bs "object.pluck", (-1)%Z); (bs "printf", (-1)%Z); (bs "string.length", (-1)%Z); (bs "string.lower", (-1)%Z);
+    (bs "string.split", (-1)%Z); (bs "string.upper", (-1)%Z) ].
+Proof. reflexivity. Qed.
